@@ -394,6 +394,10 @@ def run_case(c: api.FnContract, args: dict, call=None):
             result = call(fn, args)
         else:
             result = fn(**args)
+        import inspect as _inspect
+
+        if _inspect.isgenerator(result):
+            result = list(result)  # a generator function's contract speaks about the list of yielded values
         raised = None
     except Exception as ex:  # noqa
         raised = ex
